@@ -608,7 +608,12 @@ func checkC16(c *Case, trace bool) *CaseResult {
 						continue
 					}
 					var args []string
-					for _, a := range e.Args {
+					for ai, a := range e.Args {
+						if fspec := w.h.Fns[e.Fn]; ai < len(fspec.Params) && fspec.Params[ai].Soft {
+							// the content of a soft group legitimately depends on what happened to be built (C11)
+							args = append(args, "[~soft]")
+							continue
+						}
 						var ts []string
 						for _, tk := range a {
 							if tk == nil {
